@@ -83,6 +83,15 @@ struct A {
 		for (size_t k = 0; k < 3; k++)
 			if (json_object_array_get_idx(arr, m.size() + k) != nullptr)
 				ctx.fail("past-end", std::string(op) + ": read past the end is not null");
+		// the same through the list the node exposes
+		array_list *al = json_object_get_array(arr);
+		if (!al || array_list_length(al) != m.size())
+			ctx.fail("length", std::string(op) + ": json_object_get_array()/array_list_length disagrees with the model");
+		for (size_t i = 0; i < m.size(); i += (m.size() > 64 ? 7 : 1))
+			if (array_list_get_idx(al, i) != (void *)m[i].p)
+				ctx.fail("element", std::string(op) + ": array_list_get_idx(" + str(i) + ") on the node's list differs from the model");
+		if (array_list_get_idx(al, m.size()) != nullptr)
+			ctx.fail("past-end", std::string(op) + ": array_list_get_idx past the end is not NULL");
 		if (json_object_array_get_idx(arr, SIZE_MAX) != nullptr || json_object_array_get_idx(arr, SIZE_MAX / 2) != nullptr)
 			ctx.fail("past-end", std::string(op) + ": read at a huge index is not null");
 		if (g_destroyed != expect_dead)
@@ -237,6 +246,16 @@ struct A {
 		if (count >= 2)
 			f_delrange = true;
 		verify("del_idx");
+	}
+	void shrink_refused(size_t slots)
+	{
+		// the int parameter of json_object_array_shrink cannot express these; the node's list can be asked directly
+		int r = array_list_shrink(json_object_get_array(arr), slots);
+		log("array_list_shrink " + str(slots) + " (must be refused)");
+		if (r != -1)
+			ctx.fail("not-refused", "array_list_shrink(" + str(slots) + ") on the node's list returned " + str(r));
+		f_refused = true;
+		verify("array_list_shrink(refused)");
 	}
 	void shrink(int slots)
 	{
@@ -717,7 +736,12 @@ void run_case(Choices &c, Ctx &ctx)
 			a.del(idx, count);
 			break;
 		}
-		case 4: a.shrink((int)c.range(0, 5)); break;
+		case 4:
+			if (c.coin(15))
+				a.shrink_refused((c.coin(50) ? SIZE_MAX : c.coin(50) ? SIZE_MAX / 2 : SIZE_MAX / 8) - (size_t)c.range(0, 40));
+			else
+				a.shrink((int)c.range(0, 5));
+			break;
 		case 5: a.sort(); break;
 		case 6:
 			if (a.sorted)
